@@ -4,6 +4,9 @@
 #include "common.h"
 static void pv(double v, xrl_error **e) { fprintf(OUT, "[%d,", *e == NULL); jd(v); fputc(']', OUT); xrl_clear_error(e); }
 static void pc(xrlComplex z, xrl_error **e) { fprintf(OUT, "[%d,", *e == NULL); jd(z.re); fputc(',', OUT); jd(z.im); fputc(']', OUT); xrl_clear_error(e); }
+/* the pointer-returning twins that the Fortran / .NET / scripting bindings call (exported, not declared in the headers) */
+extern void Crystal_F_H_StructureFactor2(Crystal_Struct *, double, int, int, int, double, double, xrlComplex *, xrl_error **) __attribute__((weak));
+extern void Crystal_F_H_StructureFactor_Partial2(Crystal_Struct *, double, int, int, int, double, double, int, int, int, xrlComplex *, xrl_error **) __attribute__((weak));
 static void event(Crystal_Struct *c, int builtin, int h, int k, int l, double E, double dw, double rel) {
   xrl_error *e = NULL;
   fprintf(OUT, "{\"k\":\"xtal\",\"builtin\":%d,\"hkl\":[%d,%d,%d],\"E\":", builtin, h, k, l); jd(E); fputs(",\"dw\":", OUT); jd(dw); fputs(",\"rel\":", OUT); jd(rel);
@@ -28,6 +31,12 @@ static void event(Crystal_Struct *c, int builtin, int h, int k, int l, double E,
     fputs(",\"m\":", OUT); pc(Crystal_F_H_StructureFactor_Partial(c, E, -h, -k, -l, dw, rel, f0, f1, f2, &e), &e); fputc('}', OUT);
   }
   fputs("],\"Ffull\":", OUT); pc(Crystal_F_H_StructureFactor(c, E, h, k, l, dw, rel, &e), &e);
+  { xrlComplex a = Crystal_F_H_StructureFactor(c, E, h, k, l, dw, rel, &e), b = {0, 0}; int oka = e == NULL; xrl_clear_error(&e);
+    if (Crystal_F_H_StructureFactor2) Crystal_F_H_StructureFactor2(c, E, h, k, l, dw, rel, &b, &e); else b = a; int okb = Crystal_F_H_StructureFactor2 ? e == NULL : oka; xrl_clear_error(&e);
+    xrlComplex p = Crystal_F_H_StructureFactor_Partial(c, E, h, k, l, dw, rel, 1, 2, 0, &e), q = {0, 0}; int okp = e == NULL; xrl_clear_error(&e);
+    if (Crystal_F_H_StructureFactor_Partial2) Crystal_F_H_StructureFactor_Partial2(c, E, h, k, l, dw, rel, 1, 2, 0, &q, &e); else q = p; int okq = Crystal_F_H_StructureFactor_Partial2 ? e == NULL : okp; xrl_clear_error(&e);
+    fprintf(OUT, ",\"twin\":[[%d,", oka); jd(a.re); fputc(',', OUT); jd(a.im); fprintf(OUT, "],[%d,", okb); jd(b.re); fputc(',', OUT); jd(b.im);
+    fprintf(OUT, "],[%d,", okp); jd(p.re); fputc(',', OUT); jd(p.im); fprintf(OUT, "],[%d,", okq); jd(q.re); fputc(',', OUT); jd(q.im); fputs("]]", OUT); }
   fputs(",\"F000\":", OUT); pc(Crystal_F_H_StructureFactor_Partial(c, E, 0, 0, 0, dw, rel, 2, 0, 0, &e), &e);
   fputs("}\n", OUT);
 }
